@@ -414,6 +414,47 @@ func c01Spaces(c *fw.Ctx) {
 			}
 		})
 
+	c.Space("two-of-a-type", "for every registered type (OPT excepted): a message whose answer section holds the default record X, a record Y of the same type with one field moved to another alphabet value (every such Y), and X again — anything a codec shares between records of one type (a template, a scratch value, a cached decoder result) shows when two different records of the type are alive in one message: Pack==layout, Unpack==original, Pack(Unpack)==octets; non-trivial: all", true,
+		func(emit func(func(*fw.R))) {
+			for _, t := range types {
+				s := wire.Specs[t]
+				if s == nil || t == 41 {
+					continue
+				}
+				t := t
+				def := enum.Default(s)
+				enum.Vectors(s, 1, 0, func(vals []wire.Val, devs int) {
+					if devs != 1 {
+						return
+					}
+					emit(func(r *fw.R) {
+						r.Nontrivial()
+						x := wire.RR{Name: enum.Names[0], Type: t, Class: 1, TTL: 300, Vals: def}
+						y := wire.RR{Name: enum.Names[1], Type: t, Class: 1, TTL: 301, Vals: vals}
+						m := &wire.Msg{ID: 0x0102, Flags: 0x8400, Q: []wire.Question{{Name: enum.Names[0], Type: t, Class: 1}}}
+						m.Sec[0] = []wire.RR{x, y, x}
+						c01Msg(r, m, "two-of-a-type/"+s.Mnem)
+					})
+				})
+			}
+		})
+
+	c.Space("private-pairs", "the registered private type: every ordered pair of the 6 payloads as two records of one message (Pack==layout; Unpack gives each record its own payload; repack), and as two successive UnpackRR / NewRR calls whose first result is looked at after the second call; non-trivial: the payloads differ", true,
+		func(emit func(func(*fw.R))) {
+			pls := [][]byte{{}, {'a'}, {0}, {0xff, '"'}, bytes.Repeat([]byte{'z'}, 255), []byte("hello world")}
+			for i := range pls {
+				for j := range pls {
+					a, b := pls[i], pls[j]
+					emit(func(r *fw.R) {
+						if !bytes.Equal(a, b) {
+							r.Nontrivial()
+						}
+						c01PrivatePair(r, a, b)
+					})
+				}
+			}
+		})
+
 	c.Space("private", "a private type registered through PrivateHandle (rdata = 1 length-prefixed string): pack==layout, unpack==original for 6 payloads; non-trivial: all", true,
 		func(emit func(func(*fw.R))) {
 			for i, pl := range [][]byte{{}, {'a'}, {0}, {0xff, '"'}, bytes.Repeat([]byte{'z'}, 255), []byte("hello world")} {
@@ -549,6 +590,62 @@ func (p *c01PrivRdata) Copy(d dns.PrivateRdata) error {
 func (p *c01PrivRdata) Len() int { return 1 + len(p.s) }
 
 const c01PrivType = 65281
+
+func c01PrivatePair(r *fw.R, a, b []byte) {
+	dns.PrivateHandle("VPRIV", c01PrivType, func() dns.PrivateRdata { return new(c01PrivRdata) })
+	defer dns.PrivateHandleRemove(c01PrivType)
+	mk := func(owner [][]byte, pl []byte) wire.RR {
+		return wire.RR{Name: owner, Type: c01PrivType, Class: 1, TTL: 60, Raw: append([]byte{byte(len(pl))}, pl...)}
+	}
+	ra, rb := mk(enum.Names[0], a), mk(enum.Names[1], b)
+	m := &wire.Msg{ID: 9, Flags: 0x8000}
+	m.Sec[0] = []wire.RR{ra, rb}
+	want, err := wire.EncodeMsg(m)
+	if err != nil {
+		panic(err)
+	}
+	lib := func(x wire.RR, pl []byte) dns.RR {
+		return &dns.PrivateRR{Hdr: dns.RR_Header{Name: bind.LibName(x.Name), Rrtype: c01PrivType, Class: 1, Ttl: 60}, Data: &c01PrivRdata{pl}}
+	}
+	g := &dns.Msg{MsgHdr: bind.HdrToGo(9, 0x8000), Answer: []dns.RR{lib(ra, a), lib(rb, b)}}
+	got, err := g.Pack()
+	if err != nil || !bytes.Equal(got, want) {
+		r.Fail("private/msg-pack", "Pack of two private records = %x, %v; reference %x", got, err, want)
+	}
+	u := new(dns.Msg)
+	if err := u.Unpack(want); err != nil || len(u.Answer) != 2 {
+		r.Fail("private/msg-unpack", "Unpack(%x): %v, %d answers", want, err, len(u.Answer))
+		return
+	}
+	for i, pl := range [][]byte{a, b} {
+		p, ok := u.Answer[i].(*dns.PrivateRR)
+		if !ok || !bytes.Equal(p.Data.(*c01PrivRdata).s, pl) {
+			r.Fail("private/msg-unpack", "Unpack(%x): answer %d is %v, want payload %q (the other record's is %q)", want, i, u.Answer[i], pl, [][]byte{b, a}[i])
+		}
+	}
+	if again, err := u.Pack(); err != nil || !bytes.Equal(again, want) {
+		r.Fail("private/msg-repack", "Pack(Unpack(o)) = %x, %v; o = %x", again, err, want)
+	}
+	// two successive calls, the first result inspected after the second call
+	wa, _ := wire.EncodeRR(nil, &ra)
+	wb, _ := wire.EncodeRR(nil, &rb)
+	first, _, err1 := dns.UnpackRR(wa, 0)
+	_, _, err2 := dns.UnpackRR(wb, 0)
+	if err1 != nil || err2 != nil {
+		r.Fail("private/unpack", "UnpackRR: %v / %v", err1, err2)
+	} else if p, ok := first.(*dns.PrivateRR); !ok || !bytes.Equal(p.Data.(*c01PrivRdata).s, a) {
+		r.Fail("private/unpack-shares-state", "a private record unpacked with payload %q reads %v after another record of the type (payload %q) was unpacked", a, first, b)
+	}
+	ta := fmt.Sprintf("a.example. 60 IN VPRIV %s", "pa")
+	tb := fmt.Sprintf("b.example. 60 IN VPRIV %s", "pb")
+	n1, e1 := dns.NewRR(ta)
+	_, e2 := dns.NewRR(tb)
+	if e1 != nil || e2 != nil {
+		r.Fail("private/parse", "NewRR: %v / %v", e1, e2)
+	} else if p, ok := n1.(*dns.PrivateRR); !ok || string(p.Data.(*c01PrivRdata).s) != "pa" {
+		r.Fail("private/parse-shares-state", "a private record parsed from %q reads %v after %q was parsed", ta, n1, tb)
+	}
+}
 
 func c01Private(r *fw.R, i int, payload []byte) {
 	dns.PrivateHandle("VPRIV", c01PrivType, func() dns.PrivateRdata { return new(c01PrivRdata) })
